@@ -936,21 +936,29 @@ class Merger:
         merge_performed = False
         lhs_proc = Processor(self.logger, self.data)
         inserted_rhs = rhs
-        for target_idx, node_coord in enumerate(
-            self._get_merge_target_nodes(insert_at, lhs_proc, rhs)
+        target_nodes = self._get_merge_target_nodes(insert_at, lhs_proc, rhs)
+        pristine_rhs = None
+        rhs_anchors: Dict[str, Any] = {}
+        if len(target_nodes) > 1 and isinstance(
+            rhs, (CommentedMap, CommentedSeq, CommentedSet)
         ):
+            # Merging into the first target can change RHS nodes which that
+            # target adopts (records of one Array-of-Hashes merging into each
+            # other), so the copies for further targets are taken from RHS as
+            # it is now.  Anchored nodes are one node wherever they appear, so
+            # they are not copied.
+            Anchors.scan_for_anchors(rhs, rhs_anchors)
+            pristine_rhs = deepcopy(
+                rhs, {id(node): node for node in rhs_anchors.values()})
+        for target_idx, node_coord in enumerate(target_nodes):
             target_node = node_coord.node
-            if target_idx > 0 and isinstance(
-                rhs, (CommentedMap, CommentedSeq, CommentedSet)
-            ):
+            if target_idx > 0 and pristine_rhs is not None:
                 # Every further target merges its own copy of RHS lest nodes
                 # adopted by one target -- and changed by merging into
-                # another -- be shared among them.  Anchored nodes are one
-                # node wherever they appear, so they are not copied.
-                rhs_anchors: Dict[str, Any] = {}
-                Anchors.scan_for_anchors(rhs, rhs_anchors)
+                # another -- be shared among them.
                 rhs = deepcopy(
-                    rhs, {id(node): node for node in rhs_anchors.values()})
+                    pristine_rhs,
+                    {id(node): node for node in rhs_anchors.values()})
                 self.config.prepare(rhs)
 
                 if (target_node is inserted_rhs
